@@ -891,10 +891,12 @@ Section Store.
   | EAppend (frs : list frag)                              (* rows of new fragments (ids assigned at commit) *)
   | EDelete (rows : list addr)                             (* these addresses disappear *)
   | EUpdateRows (rows : list addr) (frs : list frag)       (* old images disappear, new images appear *)
-  | EUpdateCols (upd : list frag) (fields : list Z) (frs : list frag)
-                                                           (* cells of `fields` in the fragments of `upd` take the
-                                                              values of those files; new rows appear *)
-  | ERewrite (olds : list N) (frs : list frag)             (* the rows of `olds` move into new fragments *)
+  | EUpdateCols (upd : list frag) (fields : list Z) (matched : list addr) (frs : list frag)
+                                                           (* the cells of `fields` of the matched rows take the
+                                                              values of the rewritten column files; new rows appear *)
+  | ERewrite (olds : list N) (frs : list frag) (src : N -> N -> option addr)
+                                                           (* the rows of `olds` move: row o of the k-th new fragment
+                                                              is the row src k o of the current table *)
   | EAddColumns (added : schema) (frs : list frag)         (* fields appended to the schema; their cells from `frs` *)
   | EProject (drop : list Z)                               (* these fields leave the schema *)
   | EDropFrags (olds : list N)                             (* every row of these fragments disappears *)
@@ -934,14 +936,23 @@ Section Store.
     | EDelete rows => Some (drop_rows t (fun f o => mem_addr (f, o) rows))
     | EUpdateRows rows frs =>
         Some (add_frags (drop_rows t (fun f o => mem_addr (f, o) rows)) (fst (assign_ids (next_id t) frs)))
-    | EUpdateCols upd fields frs =>
+    | EUpdateCols upd fields matched frs =>
         let t1 := {| t_schema := t_schema t; t_maxfid := t_maxfid t; t_config := t_config t; t_live := t_live t;
                      t_cell := fun f o x => match find_frag f upd with
-                                            | Some u => if memZ x fields then fcell u x o else t_cell t f o x
+                                            | Some u => if memZ x fields && mem_addr (f, o) matched then fcell u x o
+                                                        else t_cell t f o x
                                             | None => t_cell t f o x end |} in
         Some (add_frags t1 (fst (assign_ids (next_id t) frs)))
-    | ERewrite olds frs =>
-        Some (add_frags (drop_rows t (fun f _ => memN f olds)) (fst (assign_ids (next_id t) frs)))
+    | ERewrite olds frs src =>
+        let n := next_id t in
+        let news := fst (assign_ids n frs) in
+        Some {| t_schema := t_schema t; t_maxfid := upd_maxfid_ids (t_maxfid t) (ids_of news); t_config := t_config t;
+                t_live := fun f o => match find_frag f news with
+                                     | Some _ => match src (f - n) o with Some a => t_live t (fst a) (snd a) | None => false end
+                                     | None => t_live t f o && negb (memN f olds) end;
+                t_cell := fun f o x => match find_frag f news with
+                                       | Some _ => match src (f - n) o with Some a => t_cell t (fst a) (snd a) x | None => None end
+                                       | None => t_cell t f o x end |}
     | EAddColumns added frs =>
         Some {| t_schema := t_schema t ++ added; t_maxfid := t_maxfid t; t_config := t_config t; t_live := t_live t;
                 t_cell := fun f o x => if memZ x (schema_ids (t_schema t)) then t_cell t f o x
@@ -986,10 +997,12 @@ Inductive intent :=
 | IDelete (rows : list addr)                              (* delete these rows (predicate already evaluated) *)
 | IDeleteAll                                               (* predicate `true`: every fragment of the read version *)
 | IUpdateRows (rows : list addr) (frs : list frag)        (* update / full-schema merge_insert: RewriteRows *)
-| IUpdateCols (targets : list (N * N)) (fields : list Z) (frs : list frag)
+| IUpdateCols (targets : list (N * N)) (fields : list Z) (matched : list addr) (frs : list frag)
                                                            (* partial-schema merge_insert: RewriteColumns; per target
                                                               fragment the identity of the rewritten column file *)
-| IRewrite (groups : list (list N * list frag))           (* compaction: old fragment ids -> new fragments *)
+| IRewrite (groups : list (list N * list frag)) (src : N -> N -> option addr)
+                                                           (* compaction: old fragment ids -> new fragments, and where
+                                                              each row of the new fragments comes from *)
 | IAddColumns (added : schema) (files : list (N * dfile)) (* add_columns: per fragment the file with the new fields *)
 | IProject (drop : list Z)                                 (* drop_columns *)
 | IOverwrite (frs : list frag) (s : schema) (c : option cfg)
@@ -1041,12 +1054,12 @@ Section Semantics.
           | IUpdateRows rows nf =>
               let (upd, gone) := mk_deletions frs rows newdel in
               (Update gone upd nf [] (Some RewriteRows) None (schema_ids (m_schema m)), Some rows, EUpdateRows rows nf)
-          | IUpdateCols targets fields nf =>
+          | IUpdateCols targets fields matched nf =>
               let upd := rewrite_cols frs targets fields in
-              (Update [] upd nf fields (Some RewriteColumns) None [], None, EUpdateCols upd fields nf)
-          | IRewrite groups =>
+              (Update [] upd nf fields (Some RewriteColumns) None [], None, EUpdateCols upd fields matched nf)
+          | IRewrite groups src =>
               (Rewrite (map (fun g => (pick_frags frs (fst g), snd g)) groups) [] None, None,
-               ERewrite (flat_map fst groups) (flat_map snd groups))
+               ERewrite (flat_map fst groups) (flat_map snd groups) src)
           | IAddColumns added files =>
               let nfr := map (fun f => match assocN (f_id f) files with
                                        | Some d => set_files f (f_files f ++ [d]) | None => f end) frs in
